@@ -169,4 +169,5 @@ def run(chk, tier):
     # the acceptor can only answer A-RELEASE-RQ (or abort) if the peer maximum it recorded lets a 10-byte PDU through
     from . import shared
     shared.max_pdu(chk, fx, "reply-sendable")
+    shared.pdata_reader_other_pdus_fail(chk, fx, "abort-during-data-is-an-error")
     chk.undecided.append("conformance of arbitrary interleavings of the two peers with the PS3.8 state machine (a model-checking question)")
